@@ -192,19 +192,6 @@ Proof.
     destruct (rev pairs' ++ [(w2, g2)]) eqn:E; [destruct (rev pairs'); discriminate|]. exact B.
 Qed.
 
-(** lines on which this file proves [_clean_line] right (the remaining
-    case -- a string literal and a comment, or blank-# inside a literal, on one
-    line -- is covered by the correspondence check only) *)
-Definition line_simple (l : line) : bool :=
-  match l with
-  | LToks _ toks cmt =>
-    match lexes (map fst toks) with
-    | [] => match cmt with Some t => negb (contains (Str """") t) | None => true end
-    | ls => negb (is_some cmt) && negb (existsb hash_in ls)
-    end
-  | LDir _ _ _ cmt => match cmt with Some t => negb (contains (Str """") t) | None => true end
-  end.
-
 Lemma quote_free_of t : contains (Str """") t = false -> quote_free t.
 Proof. apply contains_single_false. Qed.
 
@@ -741,4 +728,250 @@ Proof.
   - rewrite forallb_forall in Hg |- *. intros g Hin. apply (Hg (IGrp g)). apply in_map. exact Hin.
   - exact Hrc.
   - exact Hsem.
+Qed.
+
+(** ** from the text of the document to its lines *)
+
+Section SplitChar.
+  Variable c : ascii.
+  Definition nbc (w : str) : Prop := Forall (fun d => Ascii.eqb c d = false) w.
+  Definition restc (ws : list str) : str := match ws with [] => [] | _ => c :: sep_concat [c] ws end.
+
+  Lemma sepc_cons w ws : sep_concat [c] (w :: ws) = w ++ restc ws.
+  Proof. destruct ws; cbn; [rewrite app_nil_r|]; reflexivity. Qed.
+
+  Lemma split_fuel_word_end_c : forall w acc fuel,
+    nbc w -> (List.length w < fuel)%nat -> split_fuel fuel [c] w acc = [rev acc ++ w].
+  Proof.
+    induction w as [|d w IH]; intros acc fuel Hw Hf; (destruct fuel as [|f]; [cbn in Hf; lia|]); cbn [split_fuel].
+    - rewrite app_nil_r. reflexivity.
+    - inversion Hw as [|? ? Hc Hw']; subst. cbn [prefixb]. rewrite Hc. cbn [andb].
+      rewrite IH; [|exact Hw' | cbn [List.length] in Hf; lia]. cbn [rev]. rewrite <- app_assoc. reflexivity.
+  Qed.
+
+  Lemma split_fuel_words_c : forall ws w acc fuel,
+    nbc w -> Forall nbc ws -> (List.length (w ++ restc ws) < fuel)%nat ->
+    split_fuel fuel [c] (w ++ restc ws) acc = (rev acc ++ w) :: ws.
+  Proof.
+    induction ws as [|w2 ws IH]; intros w acc fuel Hw Hws Hf.
+    - cbn [restc] in *. rewrite app_nil_r in *. apply split_fuel_word_end_c; assumption.
+    - inversion Hws as [|? ? Hw2 Hws']; subst.
+      revert acc fuel Hf. induction w as [|d w IHw]; intros acc fuel Hf; (destruct fuel as [|f]; [cbn in Hf; lia|]).
+      + cbn [app restc]. cbn [split_fuel prefixb]. rewrite Ascii.eqb_refl. cbn [andb List.length skipn].
+        rewrite app_nil_r. f_equal. rewrite sepc_cons.
+        rewrite (IH w2 [] f Hw2 Hws'); [reflexivity|].
+        cbn [app restc List.length] in Hf. rewrite sepc_cons in Hf. lia.
+      + inversion Hw as [|? ? Hc Hw']; subst. cbn [app]. cbn [split_fuel prefixb]. rewrite Hc. cbn [andb].
+        rewrite (IHw Hw' (d :: acc) f); [|cbn [app List.length] in Hf; lia]. cbn [rev]. rewrite <- app_assoc. reflexivity.
+  Qed.
+
+  Lemma split_sepc w ws : nbc w -> Forall nbc ws -> split [c] (sep_concat [c] (w :: ws)) = w :: ws.
+  Proof.
+    intros Hw Hws. unfold split. rewrite sepc_cons.
+    rewrite (split_fuel_words_c ws w [] _ Hw Hws); [reflexivity | lia].
+  Qed.
+End SplitChar.
+
+Definition lf : ascii := ascii_of_nat 10.
+
+(** lines of white space only are dropped by the line reader and would be skipped anyway *)
+Lemma lstrip_nil s : lstrip s = [] -> Forall (fun c => is_space c = true) s.
+Proof.
+  induction s as [|c s IH]; intros H; [constructor|]. cbn [lstrip] in H.
+  destruct (is_space c) eqn:E; [constructor; [exact E | apply IH; exact H] | discriminate H].
+Qed.
+
+Lemma strip_nil s : strip s = [] -> Forall (fun c => is_space c = true) s.
+Proof.
+  intros H. unfold strip in H. destruct (lstrip s) as [|c r] eqn:E; [apply lstrip_nil; exact E|].
+  exfalso. assert (Hc : is_space c = false).
+  { clear H. revert E. induction s as [|d s IH]; intros E; [discriminate E|]. cbn [lstrip] in E.
+    destruct (is_space d) eqn:Ed; [apply IH; exact E | inversion E; subst; exact Ed]. }
+  destruct (rstrip_keep [] c r Hc) as (Z & EZ). cbn [app] in EZ. rewrite EZ in H. discriminate H.
+Qed.
+
+Lemma all_space_strip s : Forall (fun c => is_space c = true) s -> strip s = [].
+Proof.
+  intros H. unfold strip. assert (E : lstrip s = []).
+  { induction H as [|c s Hc Hs IH]; [reflexivity|]. cbn [lstrip]. rewrite Hc. exact IH. }
+  rewrite E. reflexivity.
+Qed.
+
+Lemma blank_raw_line raw s : strip raw = [] -> process_line raw s = ([], Ok s).
+Proof.
+  intros H. apply strip_nil in H.
+  assert (Hn : norm raw = []).
+  { unfold norm. apply all_space_strip. apply collapse_Forall.
+    apply Forall_forall. intros c Hin. unfold sub_other_blanks in Hin. apply in_map_iff in Hin.
+    destruct Hin as (d & <- & Hd). rewrite Forall_forall in H. specialize (H d Hd).
+    destruct (mem_chr d ttl_other_blanks); [reflexivity | exact H]. }
+  apply (process_skip_line _ _ []); [|left; reflexivity].
+  unfold clean_line. fold (norm raw). rewrite Hn. reflexivity.
+Qed.
+
+Definition keep_line (l : str) : bool := match strip l with [] => false | _ => true end.
+
+Lemma process_lines_filter : forall L s,
+  process_lines (filter keep_line L) s = process_lines L s.
+Proof.
+  induction L as [|l L IH]; intros s; [reflexivity|]. cbn [filter]. unfold keep_line at 1.
+  destruct (strip l) eqn:E.
+  - cbn [process_lines]. rewrite (blank_raw_line l s E). rewrite IH. destruct (process_lines L s); reflexivity.
+  - cbn [process_lines]. destruct (process_line l s) as [ts [s'|e]]; [rewrite IH|]; reflexivity.
+Qed.
+
+(** no line feed inside a rendered line *)
+Definition no_lf (w : str) : Prop := Forall (fun d => Ascii.eqb lf d = false) w.
+
+Lemma solid_no_lf w : all_solid w = true -> no_lf w.
+Proof.
+  intros H. apply Forall_forall. intros c Hin. unfold all_solid in H. rewrite forallb_forall in H. specialize (H c Hin).
+  revert H. clear. char_cases c.
+Qed.
+
+Lemma hspace_no_lf g : hspace g = true -> no_lf g.
+Proof.
+  unfold hspace. intros H. apply Forall_forall. intros c Hin. rewrite forallb_forall in H. specialize (H c Hin).
+  revert H. clear. unfold is_hspace. char_cases c.
+Qed.
+
+Lemma no_newline_no_lf t : no_newline t = true -> no_lf t.
+Proof.
+  unfold no_newline. intros H. apply Forall_forall. intros c Hin. rewrite forallb_forall in H. specialize (H c Hin).
+  apply negb_true_iff, orb_false_iff in H. destruct H as (H & _). unfold lf. rewrite Ascii.eqb_sym. exact H.
+Qed.
+
+Lemma tok_no_lf t : atok_wf t = true -> no_lf (render_tok t).
+Proof.
+  intros Hwf. destruct (lex_of t) as [lex|] eqn:El.
+  - destruct t as [| |[r|l|lex' sfx|d]| | |]; cbn [lex_of] in El; try discriminate El. inversion El; subst lex'.
+    cbn [atok_wf] in Hwf. cbn [render_tok]. rewrite render_lit.
+    destruct (sfx_solid lex sfx Hwf) as (Hss & _).
+    destruct (lex_wf_facts lex (lex_of_wf lex sfx Hwf)) as (_ & Hlfcr).
+    constructor; [reflexivity|]. apply Forall_app_intro.
+    + apply Forall_forall. intros c Hin. rewrite forallb_forall in Hlfcr. specialize (Hlfcr c Hin).
+      unfold not_lfcr in Hlfcr. apply negb_true_iff, orb_false_iff in Hlfcr. destruct Hlfcr as (H & _).
+      unfold lf. rewrite Ascii.eqb_sym. exact H.
+    + constructor; [reflexivity | apply solid_no_lf; exact Hss].
+  - destruct (nonlit_solid t Hwf El) as (Hs & _). apply solid_no_lf. exact Hs.
+Qed.
+
+Lemma render_cmt_no_lf cmt : match cmt with Some t => no_newline t = true | None => True end -> no_lf (render_cmt cmt).
+Proof.
+  destruct cmt as [t|]; intros H; cbn [render_cmt]; [|constructor].
+  constructor; [reflexivity | apply no_newline_no_lf; exact H].
+Qed.
+
+Lemma line_no_lf l :
+  line_wf l = true -> forallb atok_wf (line_toks l) = true ->
+  (match l with LDir _ d _ _ => dir_wf d = true | _ => True end) -> no_lf (render_line l).
+Proof.
+  intros Hwf Htok Hd. destruct l as [lead toks cmt|lead d gaps cmt]; cbn [line_wf] in Hwf; rewrite !andb_true_iff in Hwf.
+  - destruct Hwf as ((Hlead & Hgaps) & Hcmt). cbn [render_line line_toks] in *.
+    apply Forall_app_intro; [apply hspace_no_lf; exact Hlead|]. apply Forall_app_intro.
+    + pose proof (gaps_hspace _ _ Hgaps) as Hh. clear - Htok Hh. induction toks as [|(t, g) toks IH]; [constructor|].
+      cbn [map fst snd forallb List.concat] in *. apply andb_true_iff in Htok. destruct Htok as (Ht & Htok).
+      inversion Hh as [|? ? Hg Hh']; subst.
+      apply Forall_app_intro; [apply Forall_app_intro; [apply tok_no_lf; exact Ht | apply hspace_no_lf; exact Hg] | apply IH; assumption].
+    + apply render_cmt_no_lf. destruct cmt; [exact Hcmt | exact I].
+  - destruct Hwf as (((Hlead & Hlen) & Hgaps) & Hcmt). cbn [render_line].
+    apply Forall_app_intro; [apply hspace_no_lf; exact Hlead|]. apply Forall_app_intro.
+    + apply Nat.eqb_eq in Hlen. rewrite (zip_gaps_combine _ _ Hlen). apply render_pairs_Forall.
+      apply Forall_forall. intros (w, g) Hin. split.
+      * pose proof (dir_words_facts d Hd) as Hf. rewrite Forall_forall in Hf.
+        destruct (Hf w) as (A & _); [apply in_combine_l in Hin; exact Hin|]. apply solid_no_lf. exact A.
+      * pose proof (gaps_hspace _ _ Hgaps) as Hh. rewrite Forall_forall in Hh. apply hspace_no_lf. apply Hh.
+        apply in_combine_r in Hin. exact Hin.
+    + apply render_cmt_no_lf. destruct cmt; [exact Hcmt | exact I].
+Qed.
+
+Lemma group_tokens_wf g : group_wf g = true -> Forall (fun t => atok_wf t = true) (group_tokens g).
+Proof.
+  unfold group_wf. rewrite !andb_true_iff. intros ((Hs & _) & Hpos).
+  apply Forall_forall. intros t Hin. unfold group_tokens in Hin.
+  destruct Hin as [<-|Hin]; [exact Hs|].
+  apply in_app_or in Hin. destruct Hin as [Hin|[<-|[]]]; [|reflexivity].
+  apply in_sep_concat in Hin. destruct Hin as [[<-|[]] | (y & Hy & Hx)]; [reflexivity|].
+  apply in_map_iff in Hy. destruct Hy as (po & <- & Hpoin).
+  rewrite forallb_forall in Hpos. specialize (Hpos po Hpoin). rewrite !andb_true_iff in Hpos. destruct Hpos as ((A & _) & C).
+  unfold po_tokens in Hx. destruct Hx as [<-|Hx]; [exact A|].
+  apply in_sep_concat in Hx. destruct Hx as [[<-|[]] | (z & Hz & Hx)]; [reflexivity|].
+  apply in_map_iff in Hz. destruct Hz as (o & <- & Hoin). destruct Hx as [<-|[]].
+  rewrite forallb_forall in C. apply C. exact Hoin.
+Qed.
+
+Definition stream_item_wf (x : directive + atok) : Prop :=
+  match x with inl d => dir_wf d = true | inr t => atok_wf t = true end.
+
+Lemma doc_stream_wf d :
+  forallb (fun i => match i with IGrp g => group_wf g | IDir x => dir_wf x end) d = true ->
+  Forall stream_item_wf (flat_map item_stream d).
+Proof.
+  intros H. apply Forall_forall. intros x Hin. apply in_flat_map in Hin. destruct Hin as (i & Hi & Hx).
+  rewrite forallb_forall in H. specialize (H i Hi). destruct i as [dd|g]; cbn [item_stream] in Hx.
+  - destruct Hx as [<-|[]]. exact H.
+  - apply in_map_iff in Hx. destruct Hx as (t & <- & Ht). pose proof (group_tokens_wf g H) as HF.
+    rewrite Forall_forall in HF. apply HF. exact Ht.
+Qed.
+
+Lemma lines_no_lf ls d : lays_out ls d -> Forall no_lf (map render_line ls).
+Proof.
+  intros (Hlwf & Hdwf & Hstream). pose proof (doc_stream_wf d Hdwf) as HF. rewrite <- Hstream in HF.
+  apply Forall_forall. intros r Hin. apply in_map_iff in Hin. destruct Hin as (l & <- & Hl).
+  rewrite forallb_forall in Hlwf. rewrite Forall_forall in HF.
+  assert (Hsub : forall x, In x (line_stream l) -> stream_item_wf x).
+  { intros x Hx. apply HF. apply in_flat_map. exists l. split; assumption. }
+  apply line_no_lf; [apply Hlwf; exact Hl | |].
+  - destruct l as [lead toks cmt|]; [|reflexivity]. cbn [line_toks line_stream] in *.
+    rewrite forallb_forall. intros t Ht. apply (Hsub (inr t)). rewrite <- map_map. apply in_map. exact Ht.
+  - destruct l as [|lead dd gaps cmt]; [exact I|]. apply (Hsub (inl dd)). left. reflexivity.
+Qed.
+
+Lemma doc_lines_render ls d s :
+  lays_out ls d -> process_lines (doc_lines (render_doc ls)) s = process_lines (map render_line ls) s.
+Proof.
+  intros Hl. pose proof (lines_no_lf ls d Hl) as Hno.
+  change (doc_lines (render_doc ls)) with (filter keep_line (split s_newline (render_doc ls))).
+  rewrite process_lines_filter. unfold render_doc. change newline with [lf]. change s_newline with [lf].
+  destruct (map render_line ls) as [|r rs] eqn:E.
+  - cbn [sep_concat]. change (split [lf] []) with [@nil ascii]. cbn [process_lines].
+    rewrite (blank_raw_line [] s eq_refl). reflexivity.
+  - inversion Hno as [|? ? H1 H2]; subst. rewrite (split_sepc lf r rs H1 H2). reflexivity.
+Qed.
+
+(** C07 (partial), on the text of the document *)
+Theorem reader_correct ls dirs gs ts :
+  lays_out ls (map IDir dirs ++ map IGrp gs) -> C07_dom ls (map IDir dirs ++ map IGrp gs) = true ->
+  forallb line_simple ls = true ->
+  sem (map IDir dirs ++ map IGrp gs) = Some ts ->
+  exists s' ts', read_ttl (render_doc ls) = (ts', Ok s') /\
+                 map erase_lex ts' = map erase_lex ts /\ state s' = WS.
+Proof.
+  intros Hl Hdom Hsimple Hsem. unfold read_ttl.
+  rewrite (doc_lines_render ls _ st0 Hl).
+  apply (reader_correct_lines ls dirs gs ts Hl Hdom Hsimple Hsem).
+Qed.
+
+Lemma groups_only_inv d : groups_only d = true -> exists gs, d = map IGrp gs.
+Proof.
+  induction d as [|[x|g] d IH]; intros H; [exists []; reflexivity | discriminate H|].
+  destruct (IH H) as (gs & ->). exists (g :: gs). reflexivity.
+Qed.
+
+Lemma prologue_form_inv d : prologue_form d = true -> exists dirs gs, d = map IDir dirs ++ map IGrp gs.
+Proof.
+  induction d as [|[x|g] d IH]; intros H.
+  - exists [], []. reflexivity.
+  - destruct (IH H) as (dirs & gs & ->). exists (x :: dirs), gs. reflexivity.
+  - cbn [prologue_form] in H. destruct (groups_only_inv d H) as (gs & ->). exists [], (g :: gs). reflexivity.
+Qed.
+
+Theorem reader_correct_dom ls d ts :
+  lays_out ls d -> C07_partial_dom ls d = true -> sem d = Some ts ->
+  exists s' ts', read_ttl (render_doc ls) = (ts', Ok s') /\
+                 map erase_lex ts' = map erase_lex ts /\ state s' = WS.
+Proof.
+  intros Hl Hdom Hsem. unfold C07_partial_dom in Hdom. rewrite !andb_true_iff in Hdom. destruct Hdom as ((Hd & Hs) & Hp).
+  destruct (prologue_form_inv d Hp) as (dirs & gs & ->).
+  apply (reader_correct ls dirs gs ts Hl Hd Hs Hsem).
 Qed.
